@@ -2379,6 +2379,11 @@ impl XmlElement {
         self.attributes.push(attr);
     }
 
+    /// Rebuilds the document-order keys after the attributes of this element have changed.
+    pub fn reset_order(&self) {
+        self.context.reset_order();
+    }
+
     pub fn namespaces(&self) -> error::Result<Vec<XmlNode<XmlNamespace>>> {
         let mut items = vec![];
 
